@@ -1006,25 +1006,33 @@ class MyPyAstVisitor:
 
     @staticmethod
     def _get_field_default(node: mp_nodes.FuncDef, field_name: str) -> mp_nodes.Expression | None:
-        """Find the value that the class body assigns to a field ("y: int = 3" or "y: int = field(default=3)")."""
+        """Find the value that a dataclass assigns to a field ("y: int = 3" or "y: int = field(default=3)")."""
         # (a function outside of a class has a placeholder instead of the class information)
         if node.name != "__init__" or isinstance(node.info, mp_nodes.FakeInfo) or not isinstance(node.info, mp_nodes.TypeInfo):
             return None
-        class_def = node.info.defn
+        if "dataclass" not in node.info.metadata:
+            return None
 
-        for statement in class_def.defs.body:
-            if not isinstance(statement, mp_nodes.AssignmentStmt):
-                continue
-            if not any(isinstance(lvalue, mp_nodes.NameExpr) and lvalue.name == field_name for lvalue in statement.lvalues):
-                continue
+        # The field may be inherited from another dataclass
+        for class_info in node.info.mro:
+            for statement in class_info.defn.defs.body:
+                if not isinstance(statement, mp_nodes.AssignmentStmt):
+                    continue
+                if not any(
+                    isinstance(lvalue, mp_nodes.NameExpr) and lvalue.name == field_name for lvalue in statement.lvalues
+                ):
+                    continue
 
-            rvalue = statement.rvalue
-            if isinstance(rvalue, mp_nodes.CallExpr) and getattr(rvalue.callee, "name", "") == "field":
-                for arg_name, arg in zip(rvalue.arg_names, rvalue.args, strict=False):
-                    if arg_name == "default":
-                        return arg
-                return None
-            return None if isinstance(rvalue, mp_nodes.TempNode) else rvalue
+                rvalue = statement.rvalue
+                if isinstance(rvalue, mp_nodes.CallExpr) and (
+                    getattr(rvalue.callee, "fullname", "") == "dataclasses.field"
+                    or getattr(rvalue.callee, "name", "") == "field"
+                ):
+                    for arg_name, arg in zip(rvalue.arg_names, rvalue.args, strict=False):
+                        if arg_name == "default":
+                            return arg
+                    return None
+                return None if isinstance(rvalue, mp_nodes.TempNode) else rvalue
         return None
 
     def _get_parameter_type_and_default_value(
